@@ -184,5 +184,13 @@ def run(chk: Check) -> None:
         if o["rule"].endswith(".T6"):
             o["rule"] = f"{chk.prop}.F3"
     chk.rules["F3"] = chk.rules.pop("T6", "")
+    from .c03 import rule_t4
+    from .common import reuse
+
+    reuse(chk, rule_t4, "F5", "verify() reports a match only from comparing the presented certificate's fingerprint with the pin stored now (= C03.T4): a request is sent only to a peer that passes the current pin", ("T4",))
+    from .c03 import tofu_wiring
+
+    chk.rule("F4", "verification before sending is switched off only by an explicit decision: every GeminiClient construction passes trust_on_first_use as the caller's own option, a literal, or the default (= C03.T10)")
+    tofu_wiring(chk, "F4")
     chk.trusted = ["CPython ast parser", "engine CFG / abstract evaluator", "asyncio calls connection_made before create_connection returns"]
     chk.assumptions = ["bytes of the TLS handshake itself (SNI, client certificate) are outside the property", "`nauyaca tofu trust` connects with TOFU disabled on purpose (explicit re-pin) and is outside the property"]
